@@ -159,6 +159,11 @@ def run(prop, tier, seed):
             out.violation(desc, {'cfg': t['cfg'], 'init': t['init'], 'events': t['ev'][:at], 'verdict': v})
     for t in traces[:2]:
         out.samples.append({'cfg': t['cfg'], 'ops': [[e['op'], e['a'], e['ret']] for e in t['ev'][:12]]})
+    if prop == 'C10':
+        from . import conc
+        common_fields = __import__('harness.common', fromlist=['x'])
+        common_fields.TRACE_FIELDS = ('id', 'nc', 'init', 'ev')
+        conc.c10_concurrent(out, tier, seed)
     out.assumptions += ['clock read through time.time (virtual clock, integer ticks)',
                         'SQLite and the file system behave as documented',
                         'value/key alphabets are finite samples; histories beyond the exhaustive configs are seeded random']
